@@ -284,58 +284,10 @@ int cmdRandom(int argc, char** argv) {
 				if (nif.Load(samplePath(fn)) != 0) { fclose(out); return 0; }
 				auto& hdr = nif.GetHeader();
 				for (size_t s = 0; s < steps; s++) {
-					uint32_t n = hdr.GetNumBlocks();
-					JObj a;
-					int kind = int(r() % 8);
-					if (n == 0) kind = 0;
-					auto rref = [&](uint32_t lim) -> long long { return (r() % 4 == 0 || lim == 0) ? -1 : (long long) (r() % lim); };
-					auto mkBlock = [&](uint32_t lim) {
-						JObj b;
-						switch (r() % 3) {
-							case 0: {
-								JArr refs;
-								refs.add(-1).add(-1);
-								size_t nc = r() % 3;
-								for (size_t c = 0; c < nc; c++) refs.add(rref(lim));
-								b.add("type", "NiNode").add("refs", refs).add("ptrs", JArr());
-								break;
-							}
-							case 1: b.add("type", "NiStringExtraData").add("refs", JArr()).add("ptrs", JArr()); break;
-							default: {
-								JArr refs, ptrs;
-								refs.add(rref(lim));
-								ptrs.add(rref(lim));
-								b.add("type", "bhkCollisionObject").add("refs", refs).add("ptrs", ptrs);
-							}
-						}
-						return b;
-					};
-					switch (kind) {
-						case 0: a.add("op", "Add").add("b", mkBlock(n + 1)); break;
-						case 1: a.add("op", "Del").add("i", (long long) (r() % n)); break;
-						case 2: a.add("op", "Rep").add("i", (long long) (r() % n)).add("b", mkBlock(n)); break;
-						case 3: {
-							std::vector<long long> p(n);
-							for (uint32_t i = 0; i < n; i++) p[i] = i;
-							// a few random transpositions / a rotation
-							if (r() % 2) std::rotate(p.begin(), p.begin() + (r() % n), p.end());
-							for (int k = 0; k < 3; k++) std::swap(p[r() % n], p[r() % n]);
-							a.add("op", "Ord").add("p", jints(p));
-							break;
-						}
-						case 4:
-						case 5: {
-							std::string t = hdr.GetBlockTypeStringById(uint32_t(r() % n));
-							a.add("op", "DelT").add("t", t).add("orphaned", kind == 5 || (r() % 3 != 0));
-							break;
-						}
-						case 6: a.add("op", "Prune"); break;
-						default: a.add("op", "PruneNodes"); break;
-					}
+					std::string act = randomGraphOp(nif, r);
 					UidMap um;
 					ProjOpts po;
 					std::string pre = project(nif, um, po);
-					std::string act = a.done();
 					applyGraphOp(nif, jparse(act));
 					std::string post = project(nif, um, po);
 					fprintf(out, "{\"e\":\"step\",\"file\":%s,\"step\":%zu,\"a\":%s,\"pre\":%s,\"post\":%s}\n", J::str(fn).s.c_str(), s, act.c_str(),
